@@ -195,6 +195,39 @@ def wfO (σ : Schema) (O : Oracles) : Bool :=
 
 end Schema
 
+/-! ### Spec of the HELLO / WELCOME `roles` dictionary (C08)
+
+Written without reference to the parse loop: `roles` is a non-empty dictionary with string keys; every key is an
+allowed role name; every role value is a dictionary with string keys; its `features`, if present, is a dictionary
+with string keys in which **every known feature of that role** (the keyword parameters of the role's
+`Role*Features.__init__`, regenerated from role.py) is absent, `null` or a JSON `bool`.  Unknown feature names are
+ignored (swallowed by `**kwargs`) whatever their value — except the name `self`, which the code cannot even pass on
+(it collides with the bound argument; the model raises `TypeError` there, so such a dictionary is not accepted). -/
+
+def featureValueOk : Option WVal → Bool
+  | none => true
+  | some .null => true
+  | some (.bool _) => true
+  | some _ => false
+
+def featuresAccept (known : List Str) (fd : Dict) : Bool :=
+  !(fd.any (fun kv => kv.1 == cs!"self")) && known.all (fun f => featureValueOk (fd.get? f))
+
+def roleEntryAccept (allowed : List Str) (feats : List (Str × List Str)) (rv : Str × WVal) : Bool :=
+  strMem rv.1 allowed &&
+  (match rv.2 with
+   | .dict drole =>
+       (match Dict.get? drole cs!"features" with
+        | none => true
+        | some (.dict fd) => featuresAccept (roleKnown feats rv.1) fd
+        | some _ => false)
+   | _ => false)
+
+def rolesAccept (allowed : List Str) (feats : List (Str × List Str)) : WVal → Bool
+  | .dict [] => false
+  | .dict dr => dr.all (roleEntryAccept allowed feats)
+  | _ => false
+
 /-! ### the intended strictness (Spec of C08): what an accepted message must satisfy
 
 `specViolations` lists, for a parsed message, every field whose value C08 says must never be accepted:
